@@ -454,7 +454,7 @@ func (x *c12) shrinkBody(cur *h12, path []string, try func(h12) bool) bool {
 	items, _ = b["items"].([]any)
 	for i := range items {
 		it, _ := items[i].(map[string]any)
-		for _, key := range []string{"blank", "free", "lead", "inline", "line_cmt", "pre_label", "labels"} {
+		for _, key := range []string{"blank", "free", "lead", "inline", "line_cmt", "pre_label", "open_cmt", "eq_cmt", "label_cmt", "labels"} {
 			if v, ok := it[key]; ok && v != nil {
 				c := cloneH(*cur)
 				delete(bodyAt(c, path)["items"].([]any)[i].(map[string]any), key)
